@@ -150,7 +150,25 @@ def snapshot(agent, probe=None, greedy_fn=None):
     ptrs.add(("hp_config", id(agent.registry.hp_config)))
     for n, p in agent.registry.hp_config.items():
         ptrs.add(("rlparam:" + n, id(p)))
-    aux = {k: v for k, v in vars(agent).items() if isinstance(v, torch.Tensor) and not k.startswith("_")}
+    aux = {k: v for k, v in vars(getattr(agent, "agent", agent)).items() if isinstance(v, torch.Tensor) and not k.startswith("_")}
+    # agent wrappers (RSNorm): running statistics
+    def _rms(prefix, o):
+        if o is None:
+            return
+        if isinstance(o, dict):
+            for k, v in o.items():
+                _rms(f"{prefix}.{k}", v)
+        elif isinstance(o, (tuple, list)):
+            for i, v in enumerate(o):
+                _rms(f"{prefix}.{i}", v)
+        elif hasattr(o, "mean") and hasattr(o, "var") and hasattr(o, "count"):
+            for k in ("mean", "var", "count"):
+                t = getattr(o, k)
+                aux[f"{prefix}.{k}"] = t
+                if isinstance(t, torch.Tensor) and t.numel() > 0:
+                    ptrs.add(("rms", t.data_ptr()))
+    if "obs_rms" in vars(agent):
+        _rms("obs_rms", vars(agent)["obs_rms"])
     out = {"aux": _h(*[x for k in sorted(aux) for x in (k, aux[k])]), "algo": agent.algo, "index": int(agent.index), "mut": agent.mut if agent.mut is None else str(agent.mut),
            "hp": {k: (int(v) if isinstance(v, (int, np.integer)) and not isinstance(v, bool) else float(v)) for k, v in hp.items()},
            "ranges": ranges, "nets": nets, "opts": opts,
